@@ -275,13 +275,22 @@ class C08(Prop):
             ("alloc", r"ob = get_empty_object \(prog->num_variables_total\);")])
         conds["loadRelookupCond"] = cond("src/simulate.c", load_hdr, r"-Beek\s*\*/\s*if \((.*?)\)\s*\{\s*ob = load_object", "loadRelookupCond")
         conds["loadDepthCond"] = cond("src/simulate.c", load_hdr, r"if \((\+\+num_objects_this_thread[^;]*?)\)\s*error", "loadDepthCond")
+        # the object tested before every call of the string filter is the object the filter is called in
+        conds["objectsCalleeTested"] = cond("lib/lpc/array.c", r"\nf_objects \(void\)\s*\{",
+                                            r"if \((\w+)->flags & O_DESTRUCTED\)\s*error \(\"\*Object destructed during efun callback", "objectsCalleeTested")
+        conds["objectsCallee"] = cond("lib/lpc/array.c", r"\nf_objects \(void\)\s*\{",
+                                      r"v = apply \(func, (\w+), 1, ORIGIN_EFUN\);", "objectsCallee")
+        # clone_object: does it clear the load-depth counter before it looks the blueprint up?  (the model follows)
+        clone_body = body_of("src/simulate.c", r"\nobject_t \*clone_object \(const char \*str1, int num_arg\) \{")
+        clone_clears = bool(re.search(r"\n\s*num_objects_this_thread = 0;", clone_body))
         orders["objectsOrder"] = order("lib/lpc/array.c", r"\nf_objects \(void\)\s*\{", [
             ("collect-loop", r"for \(n = 0, ob = obj_list; ob; ob = ob->next_all\)"),
             ("collect", r"tmp\[n\] = ob;"),
             ("filter-loop", r"for \(i = 0, j = 0; j < n; j\+\+\)"),
             ("skip-destructed", r"ob = tmp\[j\];\s*if \(ob->flags & O_DESTRUCTED\)\s*continue;"),
-            ("caller-destructed-error", r"if \(current_object->flags & O_DESTRUCTED\)\s*error \(\"\*Object destructed during efun callback"),
-            ("apply-filter", r"v = apply \(func, current_object, 1, ORIGIN_EFUN\);"),
+            # (the called object is `current_object` or, since objects (func, ob) is supported, a local: any identifier)
+            ("caller-destructed-error", r"if \(\w+->flags & O_DESTRUCTED\)\s*error \(\"\*Object destructed during efun callback"),
+            ("apply-filter", r"v = apply \(func, \w+, 1, ORIGIN_EFUN\);"),
             ("apply-failed-return-0", r"ORIGIN_EFUN\);\s*if \(!v\)"),
             ("accept", r"tmp\[i\+\+\] = ob;"),
             ("drop-destructed-accepted", r"if \(!\(tmp\[j\]->flags & O_DESTRUCTED\)\)\s*tmp\[i\+\+\] = tmp\[j\];"),
@@ -314,6 +323,8 @@ class C08(Prop):
         for name, txt in list(ops.items()) + list(conds.items()):
             cl.append('/-- condition / operator in the C source (whitespace normalised), regenerated on every run -/\n'
                       'def %s : String := "%s"' % (name, txt.replace('\\', '\\\\').replace('"', '\\"')))
+        cl.append("/-- clone_object() executes `num_objects_this_thread = 0;` before find_or_load_object() (regenerated) -/\n"
+                  "def cloneClearsDepth : Bool := %s" % ("true" if clone_clears else "false"))
         cl.append("/-- prefix lengths hashed by ObjHash (lib/lpc/otable.c) and hash_living_name (lib/lpc/object.c) -/\n"
                   "def objHashPrefix : Nat := %s\ndef livingHashPrefix : Nat := %s" % (m_oh.group(1), m_lh.group(1)))
         out = ol + tl + cl + ["/-- lib/misc/hash.c `T[]` -/",
